@@ -1,2 +1,51 @@
+"""C19 (4): only one of allocate_code / set_code / input_code may ever be used (real Boss via wormhole.create)"""
+from harness.common import Job, check
+from symrun import core
+from symrun.core import eng
+
+CALLS = ["allocate_code", "set_code", "input_code"]
+
+
+class OnlyOne(Job):
+    name = "only_one_code_method"
+    functions = ["_boss.Boss.allocate_code/set_code/input_code", "wormhole._DelegatedWormhole/_DeferredWormhole pass-throughs"]
+    must_reach = ("nt:second-refused",)
+    bounds = dict(calls="every ordered pair (incl. the same method twice), before/after connecting, delegated and deferred API")
+
+    def run(self, first, second, connect_first, delegated):
+        from env.client import World, Client
+        with World() as w:
+            c = Client(w, "A", delegated=delegated)
+            if connect_first:
+                c.open()
+                w.settle()
+            args = {"allocate_code": (2,), "set_code": ("4-purple-sausages",), "input_code": ()}
+            out = []
+            for name in (first, second):
+                try:
+                    getattr(c.w, name)(*args[name])
+                    out.append("ok")
+                except Exception as e:
+                    out.append(type(e).__name__)
+            return out
+
+    def scenario(self):
+        a = eng().choose(3, "first")
+        b = eng().choose(3, "second")
+        cf = eng().choose(2, "connected")
+        dl = eng().choose(2, "delegated")
+        eng().inputs.update(first=a, second=b, connected=cf, delegated=dl)
+        out = self.run(CALLS[a], CALLS[b], bool(cf), bool(dl))
+        check(out[0] == "ok", "first code method refused")
+        check(out[1] == "OnlyOneCodeError", "second code method not refused with OnlyOneCodeError")
+        eng().note("nt:second-refused")
+
+    def replay(self, inp, label):
+        out = self.run(CALLS[inp["first"]], CALLS[inp["second"]], bool(inp["connected"]), bool(inp["delegated"]))
+        if out != ["ok", "OnlyOneCodeError"]:
+            return "%s then %s -> %r" % (CALLS[inp["first"]], CALLS[inp["second"]], out)
+        return None
+
+
 def jobs(tier):
-    return []
+    return [OnlyOne()]
